@@ -35,8 +35,8 @@ LEVEL_TEXT = ("Theorems over all trees (modules, classes, functions, attributes,
               "exactly `reload t`, an explicit function (C08_decode_enc_min); `reload t` re-encodes to the identical JSON unless a docstring is not a "
               "fixpoint of cleandoc (C08_reencode_identical, C08_roundtrip_min), agrees with t on every serialised field up to parent links "
               "(C08_equiv_fields), and is t itself when no name has a foreign parent (C08_names_resolve_modulo_known; after the repairs of the loader "
-              "the gap needs a parent that is neither the scope, the preceding name of a dotted chain, nor \"str\": C08_fixed_links, "
-              "C08_refuted_links_other). Full mode with the derived values COMPUTED by the model from the serialised base fields and the working "
+              "the gap needs a parent that is neither the scope, the preceding name of a dotted chain, nor \"str\" - another object (F11) or none "
+              "at all, as for names bound by a comprehension or lambda (F14): C08_fixed_links, C08_refuted_links_other, C08_refuted_links_local). Full mode with the derived values COMPUTED by the model from the serialised base fields and the working "
               "directory (path, filepath, relative_filepath, relative_package_filepath via a model of PurePosixPath.relative_to/parent, parsed = one "
               "text section): the full document decodes to the same `reload t` (C08_full_decode_derived), the reloaded tree gives the identical full "
               "document from the same place (C08_full_derived_stable, C08_roundtrip_full_derived), and the tree reloaded from the MINIMAL document has "
@@ -49,7 +49,7 @@ LEVEL_TEXT = ("Theorems over all trees (modules, classes, functions, attributes,
               "gap is characterised without the loader: an expression comes back unchanged iff its links are canonical (C08_links_exact, "
               "C08_gap_expr_exact, C08_names_resolve_canonical). The model's string escapes, JSON white "
               "space, str.isspace on Latin-1 and the full-only keys are proved equal to tables regenerated from CPython / models.py on every run "
-              "(C08_text_tables_agree). Computed `_refuted` witnesses for the remaining findings (F4, F6, F11, F13), each replayed on the "
+              "(C08_text_tables_agree). Computed `_refuted` witnesses for the remaining findings (F4, F6, F11, F14), each replayed on the "
               "implementation; the witnesses of the repaired defects round-trip (C08_fixed_witnesses, C08_fixed_links). Ties: differential runs on "
               "generated packages (visit with/without resolved aliases incl. alias chains, paths through aliases, cycles, unexpandable wildcard "
               "placeholders; forced inspection), namespace packages (one and two portions, every working directory), builtin modules, hand-built "
@@ -122,6 +122,8 @@ def abs_ev(v, scope, prev=None):
         return ["bool", v]
     if isinstance(v, griffe.ParameterKind):
         return ["enum", v.value]
+    if isinstance(v, int):
+        return ["int", v]
     if isinstance(v, str):
         return ["str", _ascii(v)]
     if isinstance(v, (list, tuple)):
@@ -366,7 +368,11 @@ def link_finding(slot: str, attached: bool, depth: int, old: int, new: int, top_
     """which known defect explains a parent link that the model says changes (old -> new): since the loader re-attaches
     every name of every slot and re-links dotted chains and attributes of string literals, only a parent that was
     some other object (a Function, for the values of attributes assigned in methods) cannot come back."""
-    return "C08-F11" if old == 4 else None
+    if old == 4:
+        return "C08-F11"
+    if old == 0 and new == 1:
+        return "C08-F14"     # a name bound by the expression itself (comprehension target, lambda parameter) had no parent: it gets the scope
+    return None
 
 
 def compare_objects(ctx, case, a, b, ta, tb, tm, path, mode_note, names=True):
@@ -565,7 +571,7 @@ def full_info(obj, prefix=""):
     return out
 
 
-ENC_FINDING = {"BuiltinModuleError": "C08-F4", "ValueError": "C08-F13"}
+ENC_FINDING = {"BuiltinModuleError": "C08-F4"}
 
 
 def blank_links(t):
@@ -911,7 +917,9 @@ def gen_expr(rng, depth=0, ctx_yield=False):
     if k == 18:
         return f"({e()} {gens()})"
     if k == 19:
-        return "f'a{" + rng.choice(LOCAL_NAMES) + "}b{" + rng.choice(LOCAL_NAMES) + ".x!r}'"
+        return rng.choice(["f'a{" + rng.choice(LOCAL_NAMES) + "}b{" + rng.choice(LOCAL_NAMES) + ".x!r}'",
+                           "f'{" + rng.choice(LOCAL_NAMES) + "!r:>{" + rng.choice(LOCAL_NAMES) + "}}'",
+                           "f'{" + e() + ":>10}{" + rng.choice(LOCAL_NAMES) + "!s}{{literal}}'"])
     if k == 20:
         return f"(w := {e()})"
     if k == 21:
@@ -1107,6 +1115,8 @@ def gen_module_source(rng, pkg, is_init, with_findings=True):
         # a wildcard import from a distribution that is not on the search paths: the loader keeps a `missing_dist/helpers/*` placeholder alias
         out.append(rng.choice(["from missing_dist.helpers import *", "from missing_dist import *"]))
     out += ["T = typing.TypeVar('T')", "CONST = 3"]
+    if rng.random() < 0.3:
+        out.append("i = j = 0")      # members named like the comprehension targets of the generated expressions (C08-F14)
     if rng.random() < 0.4:
         out += ["if typing.TYPE_CHECKING:", "    from missing import X as guarded"]
     names = []
@@ -1242,6 +1252,7 @@ def build_hand_tree(rng, idx):
         lambda: griffe.ExprSetComp(N("x"), [griffe.ExprComprehension(N("x"), N("xs"), [N("x")])]),
         lambda: griffe.ExprGeneratorExp(N("x"), [griffe.ExprComprehension(N("x"), N("xs"), [])]),
         lambda: griffe.ExprJoinedStr(["a", griffe.ExprFormatted(N("b")), "c"]),
+        lambda: griffe.ExprJoinedStr([griffe.ExprFormatted(N("b"), conversion=114, format_spec=griffe.ExprJoinedStr([">", griffe.ExprFormatted(N("w"))]))]),
         lambda: griffe.ExprList([N("a"), "1"]),
         lambda: griffe.ExprSet(["1", N("a")]),
         lambda: griffe.ExprNamedExpr(N("w"), "1"),
@@ -2094,13 +2105,18 @@ def witnesses(ctx):
     if not isinstance(ann, (str, griffe.Expr)) or r12[0] != "same":
         ctx.property_failure({"fixed_case": "F12 inspected annotation object without a Python repr", "mode": "min", "source": "def f(a: Marker() = None) -> Marker(): ..."},
                              {"annotation type": type(ann).__name__, "outcome": r12[0], "detail": r12[1] if isinstance(r12[1], str) else None})
-    # F13: the full form of a namespace package none of whose directories lies below the working directory
+    # repaired (bb0db70, was C08-F13 = C09-F6): the full form of a namespace package none of whose directories lies below
+    # the working directory used to raise ValueError; it must serialise and round-trip now
     home = os.getcwd()
     os.chdir("/usr")
     try:
-        ctx.witness("C08-F13", _rt(griffe.Module("w", filepath=[Path("/x/ns/w")]), full=True) == ("enc", "ValueError"))
+        r13 = _rt(griffe.Module("w", filepath=[Path("/x/ns/w")]), full=True)
     finally:
         os.chdir(home)
+    ctx.case({"fixed_case": "F13 namespace package outside the working directory, full form"}, True)
+    if r13[0] != "same":
+        ctx.property_failure({"fixed_case": "F13 namespace package outside the working directory, full form", "mode": "full", "cwd": "/usr"},
+                             {"outcome": r13[0], "detail": r13[1] if isinstance(r13[1], str) else None})
     r = _rt(V('"""\n    Deep first line.\nRest.\n"""\n'))
     r2 = _rt(V('"""\nFirst line.\n    Rest, deeper.\n  Tail.\n"""\n'))
     ctx.witness("C08-F6", r[0] == "diff" and r[1].docstring.value == "Deep first line.\nRest."
@@ -2114,6 +2130,10 @@ def witnesses(ctx):
         return ([canon(n) for n, _ in names_of(get(mod), [])], [canon(n) for n, _ in names_of(get(r[1]), [])])
     ctx.witness("C08-F11", cps("class C:\n    def __init__(self, p):\n        self.x = p\n", lambda m: m.members["C"].members["x"].value)
                 == (["w.C(p)"], ["p"]))
+    # F14: a name bound by the expression itself has no parent (and no path); the loader attaches it to the scope
+    # (it then resolves to a same-named member of that scope, if there is one)
+    r14 = cps("i = 0\nq = 1\nx = [i for i in Foo]\ny = lambda q: q\n", lambda m: [m.members["x"].value, m.members["y"].value])
+    ctx.witness("C08-F14", r14 is not None and r14[0] == ["i", "w.Foo", "i", "q"] and r14[1] == ["w.i", "w.Foo", "w.i", "w.q"])
 
 
 FIXED_LINKS = [   # (what, code, slot getter, canonical paths that must come back)
